@@ -9,17 +9,21 @@
   NOT proved here (reported, not weakened silently):
   * sparse = dense (a fact about scipy; exhibited by the correspondence runs only);
   * the position of an index tuple in the flattened adjacency tensor (row-major order; correspondence only);
-  * the normalised Laplacian is handled through its rational pieces M = H W De⁻¹ Hᵀ and Dv: what is proved is
-    symmetry of M, M·1 = weighted degree, and positive semidefiniteness of D − M (D = weighted degree), which
-    is congruent to I − D^{-1/2} M D^{-1/2} via x = D^{1/2} y; the square-root step itself is not formalised.
+  * the normalised Laplacian is modelled through its rational pieces M = H W De⁻¹ Hᵀ and Dv; the real matrix
+    `realLap r` = δ_ik − M_ik / sqrt(Dv_i·Dv_k) (what the harness compares the implementation with) is defined in
+    Lemmas/…Real from those pieces.  Proved: symmetry of M and of `realLap`, M·1 = Dv for unit weights, the
+    sum-of-squares identity for D − M with the *weighted* degree D and all non-negative weights
+    (`C12_normalized_textbook_psd`), and positive semidefiniteness over ℝ of `realLap` for unit weights
+    (`C12_normalized_psd_real_partial`, via the congruence x = D^{1/2} y).
     FULL-STRENGTH STATEMENT (property text): "for non-negative edge weights the matrix returned by
     normalized_hypergraph_laplacian(weighted=True) is the textbook matrix and positive semidefinite".  It is
-    FALSE for the code (and hence for the model, which describes the code): the code normalises with the
-    unweighted degree (known finding C12 / normalized_hypergraph_laplacian).  Proved instead:
-    `C12_normalized_psd_partial` (all weights 1) and `C12_normalized_textbook_psd` (the same M with the weighted
-    degree is PSD for all non-negative weights); the negation on the witness is the last `example`.
+    FALSE for the code (and hence for the model, which describes the code as it is): the code normalises with
+    the unweighted degree also when weighted=True (known finding C12 / normalized_hypergraph_laplacian, not
+    repaired because the repair contradicts the pinned test test_fix_647).  Hence the `_partial` theorems are
+    restricted to unit weights; the negation of the full statement on the witness ({1,2} with weight 3) is
+    the `example` block at the end.
 -/
-import XgiModel.C12.LemmasNorm
+import XgiModel.C12.LemmasReal
 
 set_option linter.unnecessarySeqFocus false
 
@@ -213,6 +217,29 @@ theorem C12_laplacian_entries (h : Net) (hwf : h.WF) (d : Nat) (i k : Nat)
   · have hne : h.nodes[i] ≠ h.nodes[k] := fun x => e ((List.Nodup.getElem_inj_iff hwf.1).mp x)
     simp only [hne, e, if_false, cnt_eq_length_filter, shared]; ring
 
+/-- the matrix `laplacian` returns: the integer entries above, divided by d when `rescale_per_node` -/
+theorem C12_laplacian_entries_rescaled (h : Net) (hwf : h.WF) (d : Nat) (rescale : Bool) (L : QMat × List PyId)
+    (hL : laplacian h d rescale = some L) (i k : Nat) (hi : i < h.nodes.length) (hk : k < h.nodes.length) :
+    ent L.1 i k = ((ent (laplacianInt h d).1 i k : Int) : ℚ) * (if rescale then ((d : ℚ))⁻¹ else 1) ∧
+    L.2 = if edgesOf h (some d) = [] ∨ h.nodes = [] then [] else h.nodes := by
+  obtain ⟨hform, _⟩ := laplacian_eq h hwf.1 d rescale L hL
+  constructor
+  · rw [hform, laplacianInt_eq h hwf.1, ent_map_map _ _ _ i k hi hk, ent_map_map _ _ _ i k hi hk]
+  · have hne : h.nodes ≠ [] := fun e => by simp [e] at hi
+    have he : (laplacianInt h d).1.isEmpty = false := by
+      cases hc : (laplacianInt h d).1.isEmpty
+      · rfl
+      · exact absurd ((laplacianInt_isEmpty h hwf.1 d).mp hc) hne
+    unfold laplacian at hL
+    simp only [he, Bool.false_eq_true, if_false] at hL
+    rw [← laplacianInt_labels h hwf.1 d]
+    cases rescale with
+    | false => simp at hL; rw [← hL]
+    | true =>
+      by_cases hd : d = 0
+      · simp [hd] at hL
+      · simp [hd] at hL; rw [← hL]
+
 /-- `laplacian` is undefined exactly for rescale_per_node with order 0 on a non-empty network -/
 theorem C12_laplacian_defined (h : Net) (hwf : h.WF) (d : Nat) (rescale : Bool) :
     laplacian h d rescale = none ↔ (rescale = true ∧ d = 0 ∧ h.nodes ≠ []) := by
@@ -374,6 +401,60 @@ theorem C12_normalized_psd_partial (h : Net) (hwf : h.WF) (weighted : Bool) (ws 
   simp only [Function.comp_apply] at this ⊢
   rw [this]
   exact hpsd
+
+theorem C12_normalized_real_symm (h : Net) (hwf : h.WF) (weighted : Bool) (ws : List (Option ℚ)) (r : Norm)
+    (hr : normalized h weighted ws = .ok r) (i k : Nat) : ent (realLap r) i k = ent (realLap r) k i := by
+  obtain ⟨hm, hdv, _, _, _⟩ := normalized_eq h hwf weighted ws r hr
+  rw [realLap_eq h.nodes hwf.1 r _ _ hm hdv]
+  by_cases hik : i < h.nodes.length ∧ k < h.nodes.length
+  · rw [ent_map_map _ _ _ i k hik.1 hik.2, ent_map_map _ _ _ k i hik.2 hik.1, normF_symm, mul_comm]
+    by_cases e : h.nodes[i] = h.nodes[k]
+    · simp [e]
+    · have e' : ¬ h.nodes[k] = h.nodes[i] := fun x => e x.symm
+      simp [e, e']
+  · rw [ent_map_map_oob _ _ _ i k hik, ent_map_map_oob _ _ _ k i (fun hc => hik ⟨hc.2, hc.1⟩)]
+
+/-- PARTIAL, over ℝ, the matrix the harness compares the implementation with
+    (`realLap r` = δ_ik − M_ik / sqrt(Dv_i·Dv_k)): with every weight 1 the normalised Laplacian is positive
+    semidefinite.  (Restricted to unit weights because it is false of the code otherwise, see header.) -/
+theorem C12_normalized_psd_real_partial (h : Net) (hwf : h.WF) (weighted : Bool) (ws : List (Option ℚ)) (r : Norm)
+    (hr : normalized h weighted ws = .ok r)
+    (hone : ∀ x ∈ weightsOf h weighted ws, x = 1) (hlen : (weightsOf h weighted ws).length = h.edges.length)
+    (xs : List ℝ) (hx : xs.length = h.nodes.length) : 0 ≤ quadR (realLap r) xs := by
+  obtain ⟨x, rfl⟩ := exists_fun_of_list h.nodes hwf.1 xs hx
+  obtain ⟨hm, hdv, _, hcov, hnz⟩ := normalized_eq h hwf weighted ws r hr
+  rw [realLap_eq h.nodes hwf.1 r _ _ hm hdv, quadR_map_map]
+  by_cases hn : h.nodes = []
+  · simp [hn, quadF]
+  have hz := zw_good h hwf (weightsOf h weighted ws) (hnz hn)
+  have hw : ∀ pw ∈ h.edges.zip (weightsOf h weighted ws), 0 ≤ pw.2 := by
+    intro pw hpw; rw [hone pw.2 (List.of_mem_zip hpw).2]; norm_num
+  obtain ⟨hz', hw'⟩ := castW_good h.nodes _ hz hw
+  have hD : ∀ n ∈ h.nodes, (1 : ℝ) ≤ (((deg h.edges n : Int) : ℚ) : ℝ) := by
+    intro n hn'
+    obtain ⟨p, hp, hnp⟩ := hcov n hn'
+    exact_mod_cast deg_pos_of_mem h.edges n p hp hnp
+  rw [quadF_congr h.nodes _ (fun n m => (if n = m then (1 : ℝ) else 0)
+      - ((normF (h.edges.zip (weightsOf h weighted ws)) n m : ℚ) : ℝ)
+        / (Real.sqrt (((deg h.edges n : Int) : ℚ) : ℝ) * Real.sqrt (((deg h.edges m : Int) : ℚ) : ℝ))) x
+    (by
+      intro n hn' m _
+      have h0 : (0 : ℝ) ≤ ((deg h.edges n : Int) : ℝ) := by
+        have := le_trans zero_le_one (hD n hn'); exact_mod_cast this
+      push_cast
+      rw [Real.sqrt_mul h0])]
+  rw [quadF_congruence h.nodes (fun n => (((deg h.edges n : Int) : ℚ) : ℝ))
+    (fun n => Real.sqrt (((deg h.edges n : Int) : ℚ) : ℝ)) _
+    (by
+      intro n hn'
+      have h1 := hD n hn'
+      exact ⟨Real.sqrt_pos.mpr (by linarith), Real.mul_self_sqrt (by linarith)⟩) x]
+  rw [quadF_congr h.nodes _ (fun n m => (if n = m then degW (castW (h.edges.zip (weightsOf h weighted ws))) n else 0)
+      - normF (castW (h.edges.zip (weightsOf h weighted ws))) n m) _
+    (by
+      intro n _ m _
+      rw [← cast_normF, ← cast_degW, degW_ones _ _ hone hlen])]
+  exact normF_quad_nonneg h.nodes hwf.1 _ hz' hw' _
 
 /-! ### adjacency tensor -/
 
